@@ -39,6 +39,20 @@ class Repr:
         return self.s
 
 
+class ReprIter(Repr):
+    """Self-rendering *and* iterable (a table / data-frame like object): still one node, rendered by _repr_html_"""
+
+    def __iter__(self):
+        return iter(["row-1", "row-2"])
+
+    def __len__(self):
+        return 2
+
+
+class StrSub(str):
+    """a str subclass instance (StrEnum member, typed id string): a plain string for every purpose"""
+
+
 class Tfy:
     """Tagifiable object: tagify() builds its declared expansion, fully tagified."""
 
@@ -122,6 +136,8 @@ class TfyRepr(Tfy):
 
 def attr_value(v: Any):
     if isinstance(v, dict):
+        if "strsub" in v:
+            return StrSub(v["strsub"])
         return H().HTML(v["html"])
     return v
 
@@ -178,7 +194,7 @@ def _build(r: Any, memo: Any = None):
     h = H()
     k = r["k"]
     if k == "text":
-        return r["s"]
+        return StrSub(r["s"]) if r.get("sub") else r["s"]
     if k == "num":
         return r["v"]
     if k == "html":
@@ -186,6 +202,8 @@ def _build(r: Any, memo: Any = None):
     if k == "none":
         return None
     if k == "repr":
+        if r.get("iter"):
+            return ReprIter(r["s"], bool(r.get("h")))
         return Repr(r["s"], bool(r.get("h")))
     if k == "meta":
         return h.MetadataNode()
